@@ -1,0 +1,11 @@
+//go:build verif
+
+package lru
+
+// VerifC09Counts returns, under the cache's own lock, the number of resident
+// entries and the size of the in-flight table (read-only; used by the C09 check).
+func (p *ECache[PK, K, V]) VerifC09Counts() (items int, inflight int) {
+	p.lock.Lock()
+	defer p.lock.Unlock()
+	return p.items.Len(), len(p.inflight)
+}
